@@ -124,6 +124,7 @@ func (n *Native) RunRace(c ReplayCase) (bool, string, error) {
 	cmd.Dir = repoDir
 	cmd.Env = append(os.Environ(), "VERIF_CASES="+inPath, "VERIF_RESULTS="+outPath, "GORACE=halt_on_error=0")
 	out, _ := cmd.CombinedOutput()
+	resTxt, _ := os.ReadFile(outPath)
 	os.Remove(inPath)
 	os.Remove(outPath)
 	txt := string(out)
@@ -131,7 +132,12 @@ func (n *Native) RunRace(c ReplayCase) (bool, string, error) {
 		i := strings.Index(txt, "WARNING: DATA RACE")
 		return true, lastLinesFrom(txt[i:], 14), nil
 	}
-	return false, lastLines(txt, 3), nil
+	if !strings.Contains(string(resTxt), `"outcome":"ok"`) {
+		// the goroutines did not all finish normally (deadlock, panic, hang):
+		// the absence of a race report means nothing
+		return false, "", fmt.Errorf("race-detector run did not complete: %s / %s", strings.TrimSpace(string(resTxt)), lastLines(txt, 3))
+	}
+	return false, "completed without a race report: " + lastLines(txt, 2), nil
 }
 
 func lastLinesFrom(s string, n int) string {
@@ -287,6 +293,8 @@ func confirms(c ReplayCase, r NativeResult) bool {
 	switch {
 	case strings.HasPrefix(c.Outcome, "assert:"):
 		return r.Outcome == c.Outcome
+	case c.Outcome == "race":
+		return r.Outcome == "race" // set by the caller from a race-detector run
 	case c.Outcome == "panic":
 		return strings.HasPrefix(r.Outcome, "panic:")
 	case c.Outcome == "budget":
